@@ -79,6 +79,13 @@ def _run(case):
                             f'{sc.current_state!r}')
         log.append(('o', obj[0], time, st, env.now))
 
+    class QuietLog(list):
+        """An override action that is a callable object which happens to be falsy (an empty list that logs elsewhere)."""
+
+        def __call__(self, sc, obj, time, st):
+            over(sc, obj, time, st)
+    quiet = QuietLog()
+
     class Proxy:
         def __getattr__(self, name):
             return getattr(box['sch'], name)
@@ -87,7 +94,7 @@ def _run(case):
     reg = []
     rets = []
     for (o, ov) in (case['pre'] if not (t0 or in_init) else []):
-        r = sch.register_object(fresh(o), over if ov else None)
+        r = sch.register_object(fresh(o), (quiet if o == 'o3' else over) if ov else None)
         exp = o not in [x for x, _ in reg]
         if r != exp:
             raise Violation('C18.register-return', f'register_object({o}) returned {r}, expected {exp}')
@@ -96,7 +103,7 @@ def _run(case):
     for (t, prio, k, o, ov) in case['timed']:
         def act(k=k, o=o, ov=ov):
             if k == 'reg':
-                rets.append((env.now, k, o, sch.register_object(fresh(o), over if ov else None)))
+                rets.append((env.now, k, o, sch.register_object(fresh(o), (quiet if o == 'o3' else over) if ov else None)))
             else:
                 rets.append((env.now, k, o, sch.unregister_object(fresh(o))))
         env.schedule_event(t, -4, act, prio)
